@@ -42,6 +42,12 @@ def raise_guards(ctx, name):
 
 def run(chk, ctx) -> None:
     actor_identity(chk, ctx, 'C03.actor')
+    # "refused after the per-street cap": the cap every street of a predefined game carries is the cap of its structure
+    from . import c11
+    from .helpers import StreetColumn
+    c11.run(StreetColumn(chk, 'C03.caps', 'caps', 6, 'the number of bets and raises a street of the variant allows (4 in fixed-limit games, '
+                                                     'unlimited otherwise), the same on every street'), ctx)
+    chk.floor('C03.caps', 12)
     _amounts(chk, ctx)
     _max_amount(chk, ctx)
     _refusals(chk, ctx)
